@@ -170,6 +170,8 @@ def items_for(tier):
     items = []
     for cs in cases(tier):
         for av in avail_patterns(cs.alts, tier):
+            if cs.what == 'generating' and av is not None and any(all(not av[j] for j in n) for n in cs.nests):
+                continue  # a nest without any available alternative: 0 ** (1/mu) is differentiated at 0 (degenerate)
             items.append((f'{cs.name}/av{"-full" if av is None else "".join(str(av[a]) for a in cs.alts)}', cs.name, av))
     return items
 
